@@ -63,8 +63,8 @@ static void scenario(const char *conf, int N, int nK, int const *Ks, bool binned
     if (binned) {
       // grid biases: the bin visited at every step is chosen up front (bins [1.5, 2) and [2, 2.5) of a grid starting at 1 with width 0.5)
       int b = verif_choice(YS[s], 2);
-      verif_assume(T.x[s] > 1.5 + 0.5 * b && T.x[s] < 2.0 + 0.5 * b);
-    } else verif_assume(T.x[s] > xlo && T.x[s] < xhi);
+      verif_assume((T.x[s] > 1.5 + 0.5 * b) & (T.x[s] < 2.0 + 0.5 * b));
+    } else verif_assume((T.x[s] > xlo) & (T.x[s] < xhi));
     T.y[s] = 1.0;
     T.tf[s] = verif_sym_double(FS[s]);
   }
